@@ -46,7 +46,7 @@ CLAIMS = {
          "hash strength out of scope; cheap hash parameters; malformed records judged only as 'never authorise'"),
  "C09": ("model_checking", "Auth.tla's stateful-token table (scope over path components incl. root and the global-administrator question, window at far/near instants, username rules) and signed-token table (key sets with HS256/HS384/ES256 with/without kid, foreign signer, HMAC keyed with a public key, alg none, kid header, expiry, audience path/host with/without canonicalHost) are enumerated completely by TLC; every row is materialised (token.Update into a real token file; JWTs freshly signed with golang-jwt) and decided by the real token.Parse(...).Check / GetPermission.",
          "golang-jwt trusted; near-edge instants are 3 s away; RS256 not in the table"),
- "C17": ("model_checking", "AdminAPI.tla (the router of webserver/api.go as a decision table: 8 methods x 18 endpoint shapes x 11 credential kinds, with the scope invariants) is enumerated completely by TLC; every row is sent as a real HTTP request to the real server (child process, group files full of sentinel secrets, real token file) and Trace_Http checks the row's status class, that a refused or preflight request changed nothing on disk, that no response contains a sentinel password/hash/salt/key, and over seeded update sequences that every stored part a request does not address is unchanged.",
+ "C17": ("model_checking", "AdminAPI.tla (the router of webserver/api.go as a decision table: 8 methods x 18 endpoint shapes x 13 credential kinds, with the scope invariants) is enumerated completely by TLC; every row is sent as a real HTTP request to the real server (child process, group files full of sentinel secrets, real token file) and Trace_Http checks the row's status class, that a refused or preflight request changed nothing on disk, that no response contains a sentinel password/hash/salt/key, and over seeded update sequences that every stored part a request does not address is unchanged.",
          "fixture content rather than arbitrary group content; sentinel detection is textual; JWT administrator tokens covered by C09 at library level"),
  "C18": ("model_checking", "Defs.tla (handler part: stat + checkPreconditions without lock; library part under groups.mu: re-read, compare, CreateTemp, encode+fsync, rename; lock-free readers; crash anywhere) is checked exhaustively for 3 editors up to 4 versions against X1/X1b/X3, the faithful switch re-finding the repaired F21; seeded optimistic-concurrency sequences (every If-Match/If-None-Match form with current and stale tags on groups, users, passwords, keys, wildcard user; 2-6 racing writers with one tag) and a crash at each of the five steps of rewriteDescriptionFile run against the real server, Trace_Http deciding from the observed (size, mtime) versions alone.",
          "racing writers are scheduled by the runtime, not a controlled scheduler; process crashes only"),
